@@ -16,6 +16,9 @@ import (
 func init() { register("C01", checkC01) }
 
 func checkC01(p *Prog, r *Report) {
+	r.rule("C01.build-wrap (imported from C20.sibling-agreement): the Type BuildType builds for a struct (the schema's definition, under whose field names payloads are decoded) and the type its Wrapper reports and marshals under name every field alike")
+	nBW := r.importRules(func(r2 *Report) { checkBuildWrapAgreement(p, r2) }, "C01.build-wrap", "C20.sibling-agreement")
+	r.floor("imported build/wrap obligations", nBW, 1)
 	r.rule("C01.check-complete: SoftResource.check, which Get runs before MarshalResource reads a soft resource's values, cannot return before its loops that zero-fill missing and drop stale fields (shared with C17)")
 	checkSoftCheckComplete(p, r, "C01")
 	r.rule("C01.type-lookup: Schema.GetType / HasType find a type by one exact equality test between a type's Name and the requested name and call nothing else (the comparison AddType uses to keep names unique)")
